@@ -158,6 +158,7 @@ VARIANTS = {
                                        "        pieces = []\n        pending = [token]\n        while pending:\n            current = pending.pop()\n            if current.children is None:\n                pieces.append(current.content)\n                continue\n            pending.extend(reversed(tuple(current.children)))\n        return ''.join(pieces)"), ('R-HOLE', 'child.content')),
  ],
  'C09': [
+  fault('code-span-padding-before-line-endings', F(ST, 'InlineCode.__init__', "        content = content.replace('\\n', ' ')\n        self.padding =", "        self.padding ="), 'R-CODE-SPAN-ROWS'),
   fault('quote-start-indent-boundary', F(BT, 'Quote.start', 'if len(line) - len(stripped) > 3:', 'if len(line) - len(stripped) >= 3:'), 'R-INDENT-DROPPED'),
   fault('assembled-lines-rstripped', F(MR, 'MarkdownRenderer.fragments_to_lines', 'yield current_line + lines[0]', 'yield (current_line + lines[0]).rstrip()'), 'R-ASSEMBLY'),
   fault('info-string-dropped', F(MR, 'MarkdownRenderer.render_fenced_code_block', 'yield indentation + token.delimiter + token.info_string', 'yield indentation + token.delimiter'), ('R-SPELL-USED', 'info_string')),
@@ -318,6 +319,8 @@ BENIGN_EXTRA = {
                                       "        prefix = \"> \"\n        max_child_line_length = max_line_length - len(prefix) if max_line_length is not None else None\n"), 'budget via len(prefix)')],
  'C19': [benign('filter-demorgan', F(TOC, 'TocRenderer.render_heading', "        if not (self.omit_title and token.level == 1\n                or token.level > self.depth\n                or any(cond(content) for cond in self.filter_conds)):\n            self._headings.append((token.level, content))",
                                      "        skip = self.omit_title and token.level == 1\n        if not skip and not self.depth < token.level and not any(cond(content) for cond in self.filter_conds):\n            self._headings.append((token.level, content))"), 'De Morgan rewrite')],
+ 'C09': [benign('code-span-strip-by-lengths', F(ST, 'InlineCode.__init__', "        if self.padding:\n            content = content[1:-1]\n",
+                                                "        if self.padding == \" \":\n            content = content[len(self.padding):len(content) - len(self.padding)]\n"), 'slice bounds from the padding')],
  'C08': [benign('plain-text-explicit-stack', F(HR, 'HtmlRenderer.render_to_plain', "        if token.children is not None:\n            inner = [self.render_to_plain(child) for child in token.children]\n            return ''.join(inner)\n        return html.escape(token.content)",
                                                "        pieces = []\n        pending = [token]\n        while pending:\n            current = pending.pop()\n            if current.children is None:\n                pieces.append(html.escape(current.content))\n                continue\n            pending.extend(reversed(tuple(current.children)))\n        return ''.join(pieces)"), 'worklist instead of recursion'),
          benign('title-escape-temporary', F(HR, 'HtmlRenderer.render_link', "            title = ' title=\"{}\"'.format(html.escape(token.title))", "            escaped_title = html.escape(token.title)\n            title = ' title=\"{}\"'.format(escaped_title)"), 'temporary')],
